@@ -56,6 +56,9 @@ def run_one(args):
             mcf.append(l)
         if on and l == "END":
             break
+    # picks given as candidate descriptions (corpus walks) are resolved by the harness: "#pick depth index text"
+    resolved = {int(l.split()[1]): int(l.split()[2]) for l in impl if l.startswith("#pick ")}
+    walk = [resolved.get(i, w if isinstance(w, int) else 0) for i, w in enumerate(walk)]
     m2 = os.path.join(d, "c%d.mng" % k)
     with open(m2, "w") as f:
         f.write(" ".join(str(x) for x in instgen.encode(inst, perm)) + "\n%d %s\n%d %s\n" % (
@@ -129,6 +132,9 @@ def main(tier, seed):
                                                                          {"slots": "some", "depots": "scarce"}, None]))
                                     for _ in range(n)]
     cases = [(d, k, inst, [rng.randrange(10 ** 6) for _ in range(rng.choice([1, 2, 3, 4, 6]))]) for k, inst in enumerate(insts)]
+    # corpus cases with a prescribed walk (candidate descriptions or indices)
+    if not os.environ.get("VERIF_REPLAY"):
+        cases += [(d, 9000 + k, c["instance"], c["walk"]) for k, c in enumerate(lib.load_corpus_cases(PID + "_walks"))]
     results = lib.pmap(run_one, cases)
     for r in results:
         r["js"] = None
